@@ -56,11 +56,21 @@ func (it *MapIterator[M, K, V]) Next() bool {
 	return false
 }
 
+// MapOrderReverse makes every owned map iteration (MapIter, SortValues) run in
+// descending instead of ascending key order. Harnesses that run the library
+// outside a controlled execution use it to cover both orders of two-entry maps.
+var MapOrderReverse bool
+
 func sortKeys[K comparable](keys []K) {
 	if len(keys) < 2 {
 		return
 	}
-	sort.SliceStable(keys, func(i, j int) bool { return lessAny(reflect.ValueOf(keys[i]), reflect.ValueOf(keys[j])) })
+	sort.SliceStable(keys, func(i, j int) bool {
+		if MapOrderReverse {
+			i, j = j, i
+		}
+		return lessAny(reflect.ValueOf(keys[i]), reflect.ValueOf(keys[j]))
+	})
 }
 
 func lessAny(a, b reflect.Value) bool {
@@ -93,7 +103,12 @@ func lessAny(a, b reflect.Value) bool {
 
 // SortValues orders the result of reflect.Value.MapKeys deterministically.
 func SortValues(vs []reflect.Value) []reflect.Value {
-	sort.SliceStable(vs, func(i, j int) bool { return lessAny(vs[i], vs[j]) })
+	sort.SliceStable(vs, func(i, j int) bool {
+		if MapOrderReverse {
+			i, j = j, i
+		}
+		return lessAny(vs[i], vs[j])
+	})
 	if PermuteMaps() && len(vs) > 1 && len(vs) <= 4 {
 		rest := vs
 		out := make([]reflect.Value, 0, len(rest))
